@@ -30,7 +30,7 @@ from .asyncenv import MemServerBackend, MemStreamTransport, loop_context
 
 NONTRIVIAL_RULE = "two lifecycle calls overlapped (a call was started while another had not finished), or a call landed in the listener-creation window"
 STUBS = ["DetLoop; MemServerBackend.create_tcp_listeners -> in-memory listeners (creation suspends 1 iteration); MemStreamTransport client"]
-ASSUMPTIONS = ["the threaded standalone servers (OS threads, ThreadsPortal) are NOT claimed: thread interleavings cannot be made symbolic by any installed engine; only the sequential hand-off post-condition of NetworkServerThread.run() is checked (server-thread shard)"]
+ASSUMPTIONS = ["the threaded standalone servers (OS threads, ThreadsPortal) are NOT claimed: thread interleavings cannot be made symbolic by any installed engine; only two sequential steps are checked: the hand-off post-condition of NetworkServerThread.run() (server-thread shard) and one shutdown(timeout) step of BaseStandaloneNetworkServerImpl from a directly constructed state (standalone/shutdown-step)"]
 BOUNDS = {"quick": "K <= 5 lifecycle events from {step, serve_forever, shutdown, server_close}, with/without one connected client", "thorough": "K <= 7"}
 OUTSIDE = "standalone (threaded) servers, real listeners"
 
@@ -280,6 +280,102 @@ def server_thread():
     return scenario
 
 
+def standalone_shutdown():
+    """One step of BaseStandaloneNetworkServerImpl.shutdown(timeout) from a directly constructed state (no OS thread): the object
+    is 'serving' (threads portal + embedded server present, tear-down not finished: the is-shutdown event is clear) or idle.  The
+    portal's run_coroutine() returns after a solver-chosen time or fails the way a closing portal does (RuntimeError /
+    concurrent.futures.CancelledError); the event stub models the serving thread finishing its tear-down (within a finite wait: solver's
+    choice; an untimed wait lasts until it does).  Asserted: shutdown(None) returns only with the event set (serving fully stopped);
+    shutdown(T) returns with the event set or after a bounded wait (never an untimed one, never longer than T)."""
+    import concurrent.futures
+
+    from easynetwork.lowlevel import _utils
+    from easynetwork.servers._base import BaseStandaloneNetworkServerImpl
+
+    from .syncenv import Env, patched_clock
+
+    def scenario(S):
+        env = Env(S, fuel=50, max_eagain=0)
+        T = [None, 0, 1, 2][S.choice(4, "timeout")]
+        serving = S.choice(2, "serving")
+        portal_end = S.choice(3, "portal_end")  # 0 returns | 1 RuntimeError | 2 concurrent CancelledError
+        took = S.choice(3, "took")
+
+        class Srv(BaseStandaloneNetworkServerImpl):
+            __slots__ = ()
+
+            def get_addresses(self):
+                return ()
+
+        class Event:
+            def __init__(self):
+                self.flag = not serving
+                self.waits = []
+
+            def is_set(self):
+                return self.flag
+
+            def set(self):
+                self.flag = True
+
+            def clear(self):
+                self.flag = False
+
+            def wait(self, timeout=None):
+                self.waits.append(timeout)
+                if self.flag:
+                    return True
+                if timeout is None or S.choice(2, "teardown_done_in_time"):
+                    self.flag = True  # the serving thread finished its tear-down while we were waiting
+                return self.flag
+
+        class Portal:
+            def run_coroutine(self, f, *args):
+                c = f(*args)
+                c.close()
+                env.now = env.now + took
+                if portal_end == 1:
+                    raise RuntimeError("ThreadsPortal not running.")
+                if portal_end == 2:
+                    raise concurrent.futures.CancelledError()
+
+            def run_sync(self, f, *args):
+                return f(*args)
+
+        class Embedded:
+            async def shutdown(self):
+                pass
+
+            def backend(self):
+                return srv._BaseStandaloneNetworkServerImpl__backend
+
+        srv = Srv("asyncio", lambda be: None)
+        ev = Event()
+        srv._BaseStandaloneNetworkServerImpl__is_shutdown = ev
+        if serving:
+            srv._BaseStandaloneNetworkServerImpl__threads_portal = Portal()
+            srv._BaseStandaloneNetworkServerImpl__server = Embedded()
+        problems = []
+        with patched_clock(env):
+            try:
+                srv.shutdown(T) if T is not None else srv.shutdown()
+            except Exception as e:  # noqa: BLE001
+                problems.append("shutdown() raised " + repr(e)[:80])
+        if T is None:
+            if not ev.flag:
+                problems.append("shutdown() returned while serving had not fully stopped (the is-shutdown event is still clear)")
+        else:
+            if not ev.flag and not ev.waits:
+                problems.append("shutdown(timeout) returned at once although serving had not stopped and the timeout was not used")
+            for w in ev.waits:
+                if w is None or w > T:
+                    problems.append(f"shutdown(timeout={T}) waited {w!r} for the end of serving")
+        tags = ("serving",) if serving else ()
+        return Outcome(ok=not problems, skeleton=[T, serving, portal_end, took, len(ev.waits)], tags=tags, detail={"problems": problems, "timeout": T, "serving": serving, "portal_end": portal_end, "took": took, "waits": ev.waits})
+
+    return scenario
+
+
 def shards(tier: str):
     import itertools
 
@@ -300,5 +396,6 @@ def shards(tier: str):
                 continue
             for pre in itertools.product(range(4), repeat=2):
                 out.append({"name": f"lifecycle-udp/{'datagram' if client else 'idle'}/{'warm' if warm else 'cold'}/K{K}/pre{pre[0]}{pre[1]}", "scenario": "props.c18:lifecycle", "params": dict(K=K, client=client, warm=warm, prefix=list(pre), udp=True), "budget": B, "cost": 4 ** (K - 2), "per_path_timeout": 30})
+    out.append({"name": "standalone/shutdown-step", "scenario": "props.c18:standalone_shutdown", "params": {}, "budget": B, "cost": 100, "per_path_timeout": 30})
     out.append({"name": "server-thread/handoff", "scenario": "props.c18:server_thread", "params": {}, "budget": B, "cost": 8, "per_path_timeout": 30})
     return out
